@@ -90,7 +90,7 @@ CHECKS["C04"] = {
                        "cstruct.py:cstruct._make_array", "cstruct.py:cstruct._make_pointer",
                        "expression.py:Expression.evaluate"],
     "required_cells": ["align:True", "align:False", "alignclass:1", "alignclass:2", "alignclass:4", "alignclass:8",
-                       "alignclass:16", "mixed-modes:aligned-offset", "mixed-modes:unaligned-offset", "empty-structures", "explicit-forward-offsets", "declared-after-extension",
+                       "alignclass:16", "mixed-modes:aligned-offset", "mixed-modes:unaligned-offset", "empty-structures", "explicit-forward-offsets", "declared-after-extension", "pointer-width-switched",
                        "sizeof-of-names:alias", "sizeof-of-names:other", "sizeof-of-names:also-a-member", "custom-type-alignment"],
     "assumptions": ASSUME_COMMON,
 }
